@@ -129,10 +129,10 @@ def nn_tucker_opts(algorithm=None):
 
 
 @st.composite
-def parafac2_case(draw, group, iters=ITERS, tols=(1e-14, 1e-2)):
+def parafac2_case(draw, group, iters=ITERS, tols=(1e-14, 1e-2), nn_choices=([0], [2], [0, 2], "all")):
     if group == "exactfit":
         kinds = ("pf2",)
-    elif group == "nn":
+    elif group in ("nn", "linesearch_nn1"):
         kinds = ("nonneg", "pf2_noise", "pf2_nonneg", "normal")
     else:
         kinds = ("normal", "nonneg", "pf2_noise", "int")
@@ -145,15 +145,20 @@ def parafac2_case(draw, group, iters=ITERS, tols=(1e-14, 1e-2)):
          "n_iter": draw(st.sampled_from(list(iters))), "tol": draw(st.sampled_from(list(tols))),
          "n_iter_parafac": draw(st.sampled_from([1, 2, 5])), "normalize": draw(st.booleans()),
          "linesearch": group == "linesearch"}
-    if group == "nn" or (group == "linesearch" and draw(st.integers(0, 2)) == 0):
-        c["nn_modes"] = draw(st.sampled_from([[0], [2], [0, 2], "all"]))
+    if group == "linesearch_nn1":
+        # line search + a non-negativity request that includes mode 1 (see notes/c07.md, defect N2)
+        c["linesearch"] = True
+        c["nn_modes"] = draw(st.sampled_from(["all", [1], [0, 1], [1, 2]]))
+        c["n_iter_parafac"] = draw(st.sampled_from([1, 2]))
+    elif group == "nn" or (group == "linesearch" and draw(st.integers(0, 2)) == 0):
+        c["nn_modes"] = draw(st.sampled_from(nn_choices))
         c["n_iter_parafac"] = draw(st.sampled_from([1, 2]))
     return c
 
 
 @st.composite
-def tr_case(draw, solver, iters=ITERS, tols=(1e-14, 1e-2, 0.0)):
-    X = draw(xi.tensor_enc(orders=(2, 3, 4), kinds=xi.KINDS_ALL))
+def tr_case(draw, solver, iters=ITERS, tols=(1e-14, 1e-2, 0.0), kinds=xi.KINDS_ALL):
+    X = draw(xi.tensor_enc(orders=(2, 3, 4), kinds=kinds))
     shape = X["s"]
     n = len(shape)
     ranks = [draw(st.integers(1, 3)) for _ in range(n)]
@@ -337,7 +342,7 @@ def subchecks(tier):
     S = []
 
     def add(name, strat, oracle, quick=50, thorough=250, exc=LinAlg, **kw):
-        S.append(SubCheck(name, strat, oracle, quick=quick, thorough=thorough, discard_exc=exc,
+        S.append(SubCheck(name, strat, oracle, quick=3 * quick, thorough=3 * thorough, discard_exc=exc,
                           budget_quick=45.0, budget_thorough=100.0, shards_thorough=2, **kw))
 
     # --- parafac -----------------------------------------------------------
